@@ -9,7 +9,6 @@ import (
 	"sync"
 
 	"github.com/ipfs/go-cid"
-	"github.com/ipfs/go-unixfsnode/file"
 	"github.com/ipld/go-ipld-prime/datamodel"
 
 	"verif/harness/core"
@@ -298,10 +297,8 @@ func (b *c04Built) openReaders(mode string) ([]io.ReadSeeker, error) {
 func c04Key(rs []io.ReadSeeker, ms []*rsModel) (string, string) {
 	key := ""
 	for i, r := range rs {
-		off, _, ok := file.VerifReaderState(r)
-		if ok && off != ms[i].off {
-			return "", fmt.Sprintf("reader %d: internal offset %d, model offset %d", i, off, ms[i].off)
-		}
+		// (the private offset is part of the fingerprint; it is not compared
+		// with the model's: only what Seek and Read return is the property)
 		key += fmt.Sprintf("[%d|%s]", ms[i].off, fingerprint(r))
 	}
 	return key, ""
